@@ -33,30 +33,31 @@ type critSpec struct {
 }
 
 type genOpts struct {
-	method      string
-	profile     string
-	minCrit     int
-	maxCrit     int
-	minAlt      int
-	maxAlt      int
-	nBiases     int      // number of bias entries
-	biasPool    []string // names to draw from (default all)
-	biasSeq     []string // exact sequence (overrides nBiases/biasPool)
-	fixedOrder  bool     // heuristics: randomAlternativesOrdering=false
-	noRandom    bool     // no random draw policy, no random orderings/reference strategies
-	allCons     int      // 0 random, 1 all considered, 2 strictly fewer (if possible)
-	noRange     bool     // never declare valuesRange
-	allFire     bool     // every bias has probability 1 and is enabled
-	negValues   bool     // allow negative values
-	gainOnly    bool
-	distinctW   bool // pairwise distinct weights
-	noCurrent   bool // no currentChoice
-	extraWeight bool // allow a superfluous weight entry where the method accepts it
-	plainIds    bool // never generate ids that differ only in case
-	vetoHeavy   bool // ELECTRE: every criterion has q, p and v (several discordant criteria per pair)
-	decimalW    bool // weights are multiples of 0.1: sums that are equal mathematically differ by a few ulps in float64
-	nearTiedW   bool // weights differ by 1e-7 only (distinct, but inside any "reasonable" epsilon)
-	bigNumbers  bool // values and weights around 1e6 that differ by small integers (absolute vs relative tolerances)
+	method         string
+	profile        string
+	minCrit        int
+	maxCrit        int
+	minAlt         int
+	maxAlt         int
+	nBiases        int      // number of bias entries
+	biasPool       []string // names to draw from (default all)
+	biasSeq        []string // exact sequence (overrides nBiases/biasPool)
+	fixedOrder     bool     // heuristics: randomAlternativesOrdering=false
+	noRandom       bool     // no random draw policy, no random orderings/reference strategies
+	allCons        int      // 0 random, 1 all considered, 2 strictly fewer (if possible)
+	noRange        bool     // never declare valuesRange
+	allFire        bool     // every bias has probability 1 and is enabled
+	negValues      bool     // allow negative values
+	gainOnly       bool
+	distinctW      bool // pairwise distinct weights
+	noCurrent      bool // no currentChoice
+	extraWeight    bool // allow a superfluous weight entry where the method accepts it
+	anchorZeroCoef bool // anchoring alternatives with coefficient 0 / without a coefficient next to weighted ones
+	plainIds       bool // never generate ids that differ only in case
+	vetoHeavy      bool // ELECTRE: every criterion has q, p and v (several discordant criteria per pair)
+	decimalW       bool // weights are multiples of 0.1: sums that are equal mathematically differ by a few ulps in float64
+	nearTiedW      bool // weights differ by 1e-7 only (distinct, but inside any "reasonable" epsilon)
+	bigNumbers     bool // values and weights around 1e6 that differ by small integers (absolute vs relative tolerances)
 }
 
 type genReq struct {
@@ -549,6 +550,12 @@ func genBias(r *rand.Rand, name string, g *genReq, o genOpts, lb, ub *int) M {
 		aa := make([]interface{}, n)
 		for i := range aa {
 			aa[i] = M{"alternative": g.altIds[r.Intn(len(g.altIds))], "coefficient": quarter(r, 1, 8)}
+			if o.anchorZeroCoef && r.Intn(3) == 0 {
+				aa[i].(M)["coefficient"] = 0.0
+				if r.Intn(2) == 0 {
+					delete(aa[i].(M), "coefficient") // left out = 0
+				}
+			}
 		}
 		p["anchoringAlternatives"] = aa
 		p["referencePoints"] = M{"function": []string{"ideal", "nadir"}[r.Intn(2)]}
@@ -557,6 +564,9 @@ func genBias(r *rand.Rand, name string, g *genReq, o genOpts, lb, ub *int) M {
 			case 0:
 				return M{"function": "linear", "params": M{"a": float64(r.Intn(5)) / 8, "b": float64(r.Intn(3)) / 8}}
 			case 1:
+				if r.Intn(3) == 0 {
+					return M{"function": "linear", "params": M{"a": 0.0, "b": -float64(1+r.Intn(3)) / 8}} // a constant, negative
+				}
 				return M{"function": "linear", "params": M{"a": 0.0, "b": 0.0}}
 			}
 			return M{"function": "expFromZero", "params": M{"alpha": float64(1+r.Intn(4)) / 4, "multiplier": float64(1+r.Intn(4)) / 4}}
